@@ -26,7 +26,12 @@ def run_sweep(chk, orch, oracle, make_wl, n_quick=10, n_round=32, crash_share=0.
             fn = "scenarios:pipeline"
             if chk.rng.random() < crash_share:
                 fn = "scenarios:crash_resume"
-                a["fault"] = {"kind": "kill", "index": 12 + chk.rng.randrange(260), "phase": chk.rng.choice(["before", "after"])}
+                if chk.rng.random() < 0.5:
+                    a["fault"] = {"kind": "kill", "index": 12 + chk.rng.randrange(260), "phase": chk.rng.choice(["before", "after"])}
+                else:
+                    # stage-relative kill (located with a fault-free probe run of the same job)
+                    a["fault"] = {"kind": "kill", "stage": chk.rng.choice(["collect", "resolve", "construct", "construct", "merge", "merge", "cleanup"]),
+                                  "frac": round(chk.rng.random(), 3), "phase": chk.rng.choice(["before", "after"])}
                 a["resume"] = {}
             jid = orch.submit(cell["hashseed"], fn, a, tag=k)
             jobs[k] = (spec, opts, cell, fn, a)
@@ -40,6 +45,8 @@ def run_sweep(chk, orch, oracle, make_wl, n_quick=10, n_round=32, crash_share=0.
             crashed = fn.endswith("crash_resume") and not res.get("no_crash")
             if crashed:
                 chk.faults["kill-tree/" + a["fault"]["phase"]] += 1
+                if a["fault"].get("stage"):
+                    chk.probes["stage_relative_kill_in_" + a["fault"]["stage"]] += 1
             if cell["hashseed"]:
                 chk.faults["hash_seed_change"] += 1
             if cell.get("high_memory"):
